@@ -32,6 +32,10 @@ pub struct BaseEvent {
     /// groups (rotating coverage of all 256 groups across base events); None = seeded choice
     #[serde(default)]
     pub pad_start: Option<usize>,
+    /// every wire bank is a fully suppressed 16-byte packet (channels without data): such an
+    /// event needs no wire map and no calibration and must build under ANY run number
+    #[serde(default)]
+    pub suppressed_only: bool,
 }
 
 #[derive(Clone, Debug, Serialize, Deserialize, PartialEq)]
@@ -155,6 +159,9 @@ pub fn build_base(b: &BaseEvent) -> BuiltEvent {
         }
         spec.event_ts = r.next_u64();
         spec.accepted_trigger = r.next_u32() as u16;
+        if b.suppressed_only {
+            spec = AdcSpec::suppressed_empty(bi as u8, 128 + ch, 699);
+        }
         wire_idx.push(banks.len());
         banks.push(BankSpec { name: format!("C{}{}", board.name, base32_digit(ch)), content: Content::Adc(spec) });
     }
@@ -740,7 +747,17 @@ impl Check for C10Check {
                 n_pad_msgs: 12,
                 long_only: j % 3 == 0,
                 pad_start: Some(((j / 8) as usize * 12) % 256),
+                suppressed_only: false,
             };
+            let mut base = base;
+            if j % 6 == 5 {
+                // channels without data only: no map or calibration is needed, whatever the run
+                const ANY_RUNS: [u32; 9] = [0, 2940, 2941, 6999, 7026, 9276, 11084, 12000, u32::MAX];
+                base.run = ANY_RUNS[((j / 6) % 9) as usize];
+                base.suppressed_only = true;
+                base.n_wires = 256;
+                base.n_pad_msgs = 0;
+            }
             let mut r = Rng::new(seed);
             let scn = Scn { base, fault: None, order_seeds: vec![0, r.next_u64() | 2], hash_keys: vec![r.next_u64()] };
             return serde_json::to_value(scn).unwrap();
@@ -763,6 +780,7 @@ impl Check for C10Check {
             n_pad_msgs: if k < 43 { 6 } else { rb.usize(0, 5) },
             long_only: k % 4 == 3,
             pad_start: if k < 43 { Some((k as usize * 6) % 256) } else { None },
+            suppressed_only: false,
         };
         let mut r = Rng::new(seed);
         let fault = if slot == 0 { None } else { all_faults(&mut Rng::new(base_seed ^ 0xF)).into_iter().nth(slot - 1) };
